@@ -14,4 +14,4 @@ def run(tier):
         "comma, while, do) - if the compiler returns code it must be EQUIVALENT for all states (a dropped break or an un-sequenced "
         "'a = 1, b = 2' is a state difference found by the solver); for the others the reference raises Unsupported and the compiler "
         "must raise too.  In addition every declared effect must be reachable from the returned effect (emitted but never sequenced).",
-        wf_clauses=("c10:", "c11:", "c12:"))
+        wf_clauses=("c10:", "c11:", "c12:effect-uses"))
